@@ -178,6 +178,103 @@ def c15_obligations(tier, seed):
 
 
 # ------------------------------------------------------------------------------------------------
+# C06 / C07 (lookup and history verifiers over the membership oracle)
+LK = "akd_core/src/verify/lookup.rs"
+HS = "akd_core/src/verify/history.rs"
+NOMEM = NOREACH + ("--no-memory-safety-checks", "--cbmc-args", "--unwindset", "memcmp.0:34")
+ORACLE = "verify_membership / verify_nonmembership are stubbed (-Z stubbing) by the membership oracle over the honest leaf set " \
+         "(kani_core::dirmodel): accepted iff (label, hash) is a leaf / iff the label is not a leaf. Justified by C05 within its bounds; " \
+         "natively (replay) nothing is stubbed and real proofs from the reference trie are used"
+IDEAL_VRF = "ideal VRF through the facebook_akd_verif hook Configuration::verif_verify_label: a VRF proof verifies exactly for the node label " \
+            "assigned to (freshness, version) of this label; labels of different (freshness, version) differ (symbolic leading byte)"
+MEMOFF = "Kani memory-safety (pointer validity) checks are switched off for these harnesses: Kani's allocator model double-frees in the drop glue of " \
+         "partially moved structs (VerifyResult { value: proof.value }), which makes them fail spuriously; functional assertions, panics, overflow and bounds checks stay on"
+HONEST = "honest directory state for one label: 1..=3 versions, one-byte values and nonces, strictly increasing epochs <= current epoch <= 7"
+L1_FUNCS = [VB + "::verify_existence", VB + "::verify_existence_with_val", VB + "::verify_existence_with_commitment", VB + "::verify_nonexistence", VB + "::verify_label"]
+
+
+def l1_obligations(which):
+    claims = {
+        "with_val": "verify_existence_with_val accepts exactly when the presented (value, epoch, nonce, freshness, version, label, hash) is the honest fresh leaf of that version",
+        "existence": "verify_existence accepts exactly when (label, hash) is the honest fresh/stale leaf of that (freshness, version)",
+        "with_commitment": "verify_existence_with_commitment (stale commitment) accepts exactly when (label, hash) is the honest stale leaf of that version and the epoch is the one stamped on it",
+        "nonexistence": "verify_nonexistence accepts exactly when the label is the node label of (freshness, version) and no such leaf exists",
+    }
+    names = {
+        "with_val": ["wa_v1_c1", "wa_v0_c1", "wa_v2_c1", "wa_v1_c0", "wa_v1_c2", "exp_v1_c1", "exp_v0_c1", "exp_v1_c2"],
+        "existence": ["wa", "wa_missing", "exp"],
+        "with_commitment": ["wa", "wa_late", "exp", "exp_late"],
+        "nonexistence": ["wa", "wa_missing", "exp"],
+    }
+    obs = []
+    for fam in which:
+        for nm in names[fam]:
+            obs.append(kani_ob("L1.%s_%s" % (fam, nm), claims[fam] + " (for every symbolic input; helper vs. its specification)",
+                               "c07l1::l1_%s_%s" % (fam, nm), L1_FUNCS,
+                               HONEST + "; adversarial value/nonce lengths 0..=2, any epoch/version/freshness, any presented label (VRF label of any (freshness, version<8) or any other 256-bit label) and any honest or foreign leaf hash; unwind 9",
+                               cap=(600, 1200), role="l1_" + fam, inst="ModelWA" if nm.startswith("wa") else "ModelEXP",
+                               assumes=[IDEAL_HASH, ORACLE, IDEAL_VRF, MEMOFF], args=NOMEM))
+    return obs
+
+
+def c06_obligations(tier, seed):
+    obs = []
+    snd = "lookup_verify accepts a proof only if the reported (value, version, epoch) are those of the label's latest update"
+    insts = [("wa_n3_v1_c1", 1, 1), ("wa_n3_v0_c1", 0, 1), ("wa_n3_v1_c0", 1, 0), ("exp_n3_v1_c1", 1, 1)]
+    if tier == "thorough":
+        insts += [("wa_n3_v2_c1", 2, 1), ("wa_n3_v1_c2", 1, 2), ("exp_n3_v0_c1", 0, 1), ("exp_n3_v1_c2", 1, 2)]
+    for nm, vl, nl in insts:
+        obs.append(kani_ob("C06.sound_" + nm, snd, "c06::c06_sound_" + nm, [LK + "::lookup_verify", "akd_core/src/utils.rs::get_marker_version_log2"] + L1_FUNCS,
+                           HONEST + "; every field of the LookupProof symbolic: version/epoch any u64, value of %d bytes, nonce of %d bytes, each of the three tree proofs for any presented "
+                           "label and any digest; unwind 9" % (vl, nl), cap=(600, 1200), role="lookup_sound",
+                           inst="ModelWA" if nm.startswith("wa") else "ModelEXP", assumes=[IDEAL_HASH, ORACLE, IDEAL_VRF, MEMOFF], args=NOMEM))
+    for cfg in ("wa", "exp"):
+        obs.append(kani_ob("C06.complete_%s_n3" % cfg, "the honest lookup proof (latest version, marker 2^floor(log n), absence of the stale label) verifies and reports the latest update",
+                           "c06::c06_complete_%s_n3" % cfg, [LK + "::lookup_verify"] + L1_FUNCS, HONEST + "; unwind 9", cap=(600, 1200), role="lookup_complete",
+                           inst="ModelWA" if cfg == "wa" else "ModelEXP", assumes=[IDEAL_HASH, ORACLE, IDEAL_VRF, MEMOFF], args=NOMEM))
+    obs += l1_obligations(["with_val", "existence", "nonexistence"] if tier == "thorough" else ["existence", "nonexistence"])
+    return obs
+
+
+def c07_obligations(tier, seed):
+    import json, os
+    obs = l1_obligations(["with_val", "existence", "with_commitment", "nonexistence"])
+    if tier == "quick":
+        keep = {"L1.with_val_wa_v1_c1", "L1.with_val_exp_v1_c1", "L1.with_val_wa_v0_c1", "L1.existence_wa", "L1.with_commitment_wa", "L1.with_commitment_wa_late",
+                "L1.with_commitment_exp", "L1.nonexistence_wa", "L1.nonexistence_wa_missing"}
+        obs = [o for o in obs if o["id"] in keep]
+    # shape layer: verify_with_history_params with symbolic versions
+    shape_names = json.load(open(os.path.join(os.path.dirname(__file__), "c07shape_instances.json")))
+    if tier == "quick":
+        shape_names = [n for n in shape_names if ("_k3_" in n or "_k4_p0_f1" in n or "_k2_p0" in n or "_k1_p1" in n or "_k0_" in n or "_mm_" in n)]
+    for nm in shape_names:
+        obs.append(kani_ob("C07." + nm[4:], "verify_with_history_params accepts k update proofs with ARBITRARY versions only if they are consecutive and decreasing, start >= 1, end <= epoch, "
+                           "the start/count relation of the parameter holds, the returned marker sets are those of (start, end, epoch) and the proof carries exactly that many marker proofs",
+                           "c07shape::" + nm, [HS + "::verify_with_history_params"],
+                           "k update proofs with symbolic versions <= 8, epoch symbolic <= 7, parameter Complete / MostRecent(0..=6) symbolic, marker vectors of the concrete lengths in the name; unwind 9",
+                           cap=(600, 1200), role="history_shape", assumes=["get_marker_versions stubbed by a table regenerated from the REAL function on this run (tools/gen_marker_table.py, exhaustive for s<=n<=E<=7; the function itself is C08's subject)"],
+                           args=NOREACH + ("--cbmc-args", "--unwindset", "memcmp.0:34")))
+    # update layer: verify_single_update_proof with the real helpers
+    upd = [("sound_wa_val_prev", "upd_sound"), ("sound_wa_val_noprev", "upd_sound"), ("sound_wa_tomb_prev", "upd_sound"), ("sound_wa_tomb_noprev", "upd_sound"),
+           ("sound_exp_val_prev", "upd_sound"), ("sound_exp_tomb_noprev", "upd_sound"), ("latestale_wa_missing", "upd_latestale"), ("latestale_wa_late", "upd_latestale"),
+           ("known_v1_tombstone_epoch_wa", "history_known"), ("complete_wa", "upd_complete"), ("complete_wa_tomb", "upd_complete"), ("complete_exp", "upd_complete")]
+    if tier == "thorough":
+        upd += [("sound_exp_tomb_prev", "upd_sound"), ("latestale_exp_late", "upd_latestale"), ("known_v1_tombstone_epoch_exp", "history_known")]
+    uclaims = {
+        "upd_sound": "verify_single_update_proof accepts an update proof (every field symbolic) only if version, epoch and value are the honest entry of that version; a tombstone only when the "
+                     "verifier opted in; for version > 1 only with the previous version's stale leaf stamped with the same epoch",
+        "upd_latestale": "on a tree whose stale marker of a superseded version is missing or carries another epoch, no update proof for the replacing version verifies",
+        "history_known": "same as upd_sound including the epoch of a tombstoned version 1 (known finding F-C07: that epoch is bound to nothing in the tree)",
+        "upd_complete": "the honest update proof of every version verifies (with the value, or tombstoned with opt-in) and reports the true version and epoch",
+    }
+    for nm, role in upd:
+        obs.append(kani_ob("C07.upd_" + nm, uclaims[role], "c07upd::c07_upd_" + nm, [HS + "::verify_single_update_proof"] + L1_FUNCS,
+                           HONEST + "; one update proof: epoch/version any u64, one-byte or tombstone value, one-byte nonce, any presented labels and leaf hashes, tombstone opt-in symbolic; unwind 9",
+                           cap=(600, 1200), role=role, inst="ModelWA" if "_wa" in nm else "ModelEXP", assumes=[IDEAL_HASH, ORACLE, IDEAL_VRF, MEMOFF], args=NOMEM))
+    return obs
+
+
+# ------------------------------------------------------------------------------------------------
 # C08 (Engine M: MIR -> SMT)
 UT = "akd_core/src/utils.rs"
 GMV = [UT + "::get_marker_versions", UT + "::find_max_index_in_skiplist", UT + "::get_marker_version_log2", UT + "::get_bit_length"]
@@ -211,6 +308,26 @@ def c08_obligations(tier, seed):
                "complete history ending at n on the REAL code is an instance of the documented-construction hole (known finding F-C08); any other hole is a violation",
                GMV, w, wb, cap),
     ]
+    # sparse-bit domain: inputs whose set bits lie in {0,1,2,16,17,18,32,33,34}: small perturbations of the
+    # skip-list boundaries 2^16 and 2^32, which no small width reaches
+    sb = "all 1 <= s <= n <= E whose set bits lie in positions {0,1,2,16,17,18,32,33,34} (unwind 37); other large epochs outside the claim"
+    scap = 900 if tier == "quick" else 2400
+    def sparse_ob(id, kind, claim, part=None):
+        o = mir_ob(id, kind, claim, GMV, "sparse", sb, scap)
+        if part:
+            o["part"] = part
+        return o
+    obs += [
+        sparse_ob("C08.M6s_past", "m6", "M6 (past markers) on the sparse-bit domain", "past"),
+        sparse_ob("C08.M6s_fut_bwd_x", "m6", "M6 (every documented future marker that itself lies in the sparse-bit domain is produced by the real code) on the sparse-bit domain: "
+                  "skip-list elements 2^16, 2^32, the powers of two around them and their neighbourhoods", "fut_bwd_x"),
+    ]
+    if tier == "thorough":
+        obs += [sparse_ob("C08.M6s_fut_fwd", "m6", "M6 (every real future marker is a documented one) on the sparse-bit domain", "fut_fwd"),
+                sparse_ob("C08.M6s_fut_bwd", "m6", "M6 (every documented future marker is produced by the real code) on the sparse-bit domain", "fut_bwd"),
+                sparse_ob("C08.M1s", "m1", "same as M1 on the sparse-bit domain"),
+                sparse_ob("C08.M2s", "m2", "same as M2 on the sparse-bit domain"),
+                sparse_ob("C08.M4s", "m4", "same as M4 on the sparse-bit domain")]
     return obs
 
 
@@ -218,7 +335,13 @@ KERNEL_ONLY = "kernel-level claim: the named pure functions are decided for all 
               "(StorageManager, Directory, Azks, caches, schedules, crash points) is outside the claim"
 
 PROPERTIES = {
-    "C08": {"obligations": c08_obligations, "jobs": 6,
+    "C06": {"obligations": c06_obligations, "jobs": 10, "assumptions": [IDEAL_HASH, ORACLE, IDEAL_VRF, MEMOFF],
+            "outside_claim": ["values/nonces longer than 2 bytes, more than 3 versions, epochs > 7", "the real ECVRF and blake3", "dishonest trees (C08)"]},
+    "C07": {"obligations": c07_obligations, "jobs": 8, "assumptions": [IDEAL_HASH, ORACLE, IDEAL_VRF, MEMOFF],
+            "outside_claim": ["the loop of key_history_verify itself (non-increasing epoch check across update proofs, iteration over the marker vectors): a harness for it was built and withdrawn "
+                              "because Kani's drop-glue artefact made it vacuous or unreliable (DESIGN.md section 9)",
+                              "more than 4 update proofs (shape) / 3 honest versions, epochs > 7", "the real ECVRF and blake3", "the server-side tombstoning (C20)"]},
+    "C08": {"obligations": c08_obligations, "jobs": 9,
             "assumptions": ["accepted lookup(m) commits the server to fresh(m), fresh(2^floor(log m)) present and stale(m) absent; accepted history [s..n] to fresh(v) present "
                             "for v in [s..n] u past(s), stale(v) present for v in [s-1..n-1], fresh(v) absent for v in future(n,E) (read off akd_core/src/verify/{lookup,history}.rs; "
                             "decided for the verifiers under C06/C07)",
